@@ -106,7 +106,7 @@ fn check(bytes: &[u8], stats: &mut Stats) -> Verdict {
     let (p, kind) = gen::g_small(&mut s);
     let men = p.men();
     let d: u8 = if men <= 5 { 1 + s.below(4) as u8 } else if men <= 9 { 1 + s.below(3) as u8 } else { 1 + s.below(2) as u8 };
-    let fen = p.fen(0, 1);
+    let fen = eng::fen(&p);
     if p.legal_moves().is_empty() {
         stats.exclude("terminal root");
         return Ok(());
@@ -143,57 +143,66 @@ fn check(bytes: &[u8], stats: &mut Stats) -> Verdict {
         v
     };
     stats.class(if exhaustive { "positions_all_expiry_points_enumerated" } else { "positions_sampled_expiry_points" });
-    let legal = p.legal_moves();
     for (i, &k) in ks.iter().enumerate() {
-        let ctx = json!({"fen": fen, "depth": d, "uninterrupted_nodes": t, "gen": kind});
-        let mut searcher = Searcher::new();
         // variant: 1..3 interruptions in a row
         let extra = if i % 7 == 3 { 1 + (k % 2) as usize } else { 0 };
         let mut seq = vec![k];
-        let it = interrupted_search(&mut searcher, &p, d, k, &ctx)?;
-        stats.eval();
-        let mut stored = it.stored_entries;
         for j in 0..extra {
-            let k2 = 1 + (k * 7919 + j as u64 * 104729) % (t - 1);
-            let (q, qd) = if j == 1 && d >= 2 {
-                // a neighbouring position of the same game
-                (p.make(legal[(k as usize) % legal.len()]), d - 1)
-            } else {
-                (p.clone(), if d > 1 && k % 3 == 0 { d - 1 } else { d })
-            };
-            if q.legal_moves().is_empty() {
-                continue;
-            }
-            let it2 = interrupted_search(&mut searcher, &q, qd, k2, &ctx)?;
-            stats.eval();
-            stored += it2.stored_entries;
-            seq.push(k2);
+            seq.push(1 + (k * 7919 + j as u64 * 104729) % (t - 1));
         }
-        if seq.len() > 1 {
-            stats.class("multi_interruption_sequences");
-        }
-        // (2) audit the table left behind
-        let mut ctx2 = ctx.clone();
-        ctx2["interrupted_at_nodes"] = json!(seq);
-        if searcher.verif.tt_deeper_hits.get() == 0 {
-            let audited = audit_table(&searcher, &mut rs, &tree, stats, &ctx2)?;
-            stats.class_n("table_entries_audited", audited);
-        } else {
-            // a deeper cached result was reused inside the interrupted searches: entries may then
-            // legitimately describe a deeper tree than their nominal depth
-            stats.exclude("audit skipped: deeper cached result reused during the interrupted searches");
-        }
-        stats.class_n("stores_made_after_deadline", searcher.verif.aborted_store_keys.len() as u64);
-        // (3) completed follow-up
-        follow_up(&mut searcher, &mut rs, &p, d, &ctx, &seq, stats)?;
-        if stored >= 1 && k < t {
-            stats.nontrivial(&(p.fen4(), d, seq.clone()));
-        }
+        let stored = judge_sequence(&p, d, &seq, t, kind, &mut rs, &tree, stats)?;
         if i == ks.len() / 2 {
             stats.sample(|| json!({"fen": fen, "depth": d, "uninterrupted_nodes": t, "expiry_points": if exhaustive { format!("all 1..{}", t - 1) } else { format!("{} sampled", ks.len()) }, "example_sequence": seq, "entries_left_behind": stored}));
         }
     }
     Ok(())
+}
+
+/// One case: a fresh engine, the interruptions `seq` (the first on (p, d); a second on (p, d or
+/// d-1); a third on a neighbouring position of the same game), then the audit of the table left
+/// behind and a completed follow-up.  Returns the number of entries the interruptions stored.
+pub fn judge_sequence(p: &Pos, d: u8, seq: &[u64], t: u64, kind: &str, rs: &mut RefSearch, tree: &[Pos], stats: &mut Stats) -> Result<usize, Failure> {
+    let fen = eng::fen(p);
+    let legal = p.legal_moves();
+    let k = seq[0];
+    let ctx = json!({"fen": fen, "depth": d, "uninterrupted_nodes": t, "gen": kind, "interrupted_at_nodes": seq});
+    let mut searcher = Searcher::new();
+    let it = interrupted_search(&mut searcher, p, d, k, &ctx)?;
+    stats.eval();
+    let mut stored = it.stored_entries;
+    for (j, &k2) in seq.iter().skip(1).enumerate() {
+        let (q, qd) = if j == 1 && d >= 2 {
+            // a neighbouring position of the same game
+            (p.make(legal[(k as usize) % legal.len()]), d - 1)
+        } else {
+            (p.clone(), if d > 1 && k % 3 == 0 { d - 1 } else { d })
+        };
+        if q.legal_moves().is_empty() {
+            continue;
+        }
+        let it2 = interrupted_search(&mut searcher, &q, qd, k2, &ctx)?;
+        stats.eval();
+        stored += it2.stored_entries;
+    }
+    if seq.len() > 1 {
+        stats.class("multi_interruption_sequences");
+    }
+    // (2) audit the table left behind
+    if searcher.verif.tt_deeper_hits.get() == 0 {
+        let audited = audit_table(&searcher, rs, tree, stats, &ctx)?;
+        stats.class_n("table_entries_audited", audited);
+    } else {
+        // a deeper cached result was reused inside the interrupted searches: entries may then
+        // legitimately describe a deeper tree than their nominal depth
+        stats.exclude("audit skipped: deeper cached result reused during the interrupted searches");
+    }
+    stats.class_n("stores_made_after_deadline", searcher.verif.aborted_store_keys.len() as u64);
+    // (3) completed follow-up
+    follow_up(&mut searcher, rs, p, d, &ctx, seq, stats)?;
+    if stored >= 1 && k < t {
+        stats.nontrivial(&(p.fen4(), d, seq.to_vec()));
+    }
+    Ok(stored)
 }
 
 /// Oracle 4: positions whose material makes mate impossible.
@@ -227,19 +236,23 @@ fn check_bare(bytes: &[u8], stats: &mut Stats) -> Verdict {
         return Ok(());
     }
     let d = 1 + s.below(5) as u8;
-    let b = eng::to_board(&p);
-    let fen = p.fen(0, 1);
-    let mut searcher = Searcher::new();
     let n_int = 1 + s.below(3);
-    let mut ks = Vec::new();
-    for _ in 0..n_int {
-        let k = 1 + s.below(3000) as u64;
-        ks.push(k);
+    let ks: Vec<u64> = (0..n_int).map(|_| 1 + s.below(3000) as u64).collect();
+    let fd = 1 + s.below(6) as u8;
+    judge_bare(&p, d, &ks, fd, stats)
+}
+
+fn judge_bare(p: &Pos, d: u8, ks: &[u64], fd: u8, stats: &mut Stats) -> Verdict {
+    let p = p.clone();
+    let ks = ks.to_vec();
+    let b = eng::to_board(&p);
+    let fen = eng::fen(&p);
+    let mut searcher = Searcher::new();
+    for &k in &ks {
         let ctx = json!({"fen": fen, "depth": d});
         interrupted_search(&mut searcher, &p, d, k, &ctx)?;
         stats.eval();
     }
-    let fd = 1 + s.below(6) as u8;
     searcher.verif_set_hard_cap(Some(3_000_000));
     let r = std::panic::catch_unwind(std::panic::AssertUnwindSafe(|| searcher.find_best_move(&b, fd, None)));
     let Ok((score, _)) = r else {
@@ -291,11 +304,32 @@ pub fn run(tier: Tier, seed: u64, known: &Known) -> PropRun {
     run
 }
 
-pub fn replay(part: &str, bytes: &[u8], _case: &Value, stats: &mut Stats) -> Verdict {
+pub fn replay(part: &str, bytes: &[u8], case: &Value, stats: &mut Stats) -> Verdict {
     REF_CAP.with(|c| c.set(1_000_000));
     ENUM_BOUND.with(|c| c.set(2_500));
     SAMPLED_KS.with(|c| c.set(400));
     MAX_T.with(|c| c.set(20_000));
+    // structural replay from the saved case
+    let c = case.get("context").unwrap_or(case);
+    let fen = c.get("fen").and_then(|x| x.as_str());
+    let seq: Option<Vec<u64>> = c.get("interrupted_at_nodes").or_else(|| case.get("interrupted_at_nodes")).and_then(|x| x.as_array()).map(|a| a.iter().filter_map(|v| v.as_u64()).collect());
+    if let (Some(fen), Some(seq)) = (fen, seq) {
+        if let Some(p) = eng::pos_from_saved_fen(fen) {
+            if part == "bare" || case.get("follow_up_depth").is_some() && case.get("interrupted_depth").is_some() {
+                let d = case.get("interrupted_depth").and_then(|x| x.as_u64()).unwrap_or(1) as u8;
+                let fd = case.get("follow_up_depth").and_then(|x| x.as_u64()).unwrap_or(1) as u8;
+                return judge_bare(&p, d, &seq, fd, stats);
+            }
+            if let (Some(d), false) = (c.get("depth").and_then(|x| x.as_u64()), seq.is_empty()) {
+                let d = d as u8;
+                let mut rs = RefSearch::new(REF_CAP.with(|c| c.get()));
+                let mut tree = Vec::new();
+                tree_positions(&p, d, &mut tree, 6000);
+                let t = c.get("uninterrupted_nodes").and_then(|x| x.as_u64()).unwrap_or(u64::MAX);
+                return judge_sequence(&p, d, &seq, t, "replay", &mut rs, &tree, stats).map(|_| ());
+            }
+        }
+    }
     match part {
         "bare" => check_bare(bytes, stats),
         _ => check(bytes, stats),
